@@ -281,6 +281,11 @@ def part_outer(R, tier, ctx):
         sigs += [(rand_sig(rng, rng.choice((5, 5, 6))), 2) for _ in range(1500)]
     # a Study number whose outer cosine is not invertible: cos(2 + 3/2 e12) = 3 + 3 e12 in signature (1,-1)
     special = [((1, -1), (0, 3), [Fr(2), Fr(3, 2)], 'singular-cos'), ((1, -1), (3, 0), [-1.5, 2.0], 'singular-cos')]
+    # 6-D bivectors of full rank (three mutually disjoint basis bivectors: B^B^B != 0), where the outer cosine is not a Study number
+    for _ in range(1 if quick else 8):
+        gens = list(range(6)); rng.shuffle(gens)
+        ks6 = tuple((1 << gens[2 * i]) | (1 << gens[2 * i + 1]) for i in range(3))
+        special.append((tuple(rng.choice((1, 1, -1)) for _ in range(6)), ks6, [rng.randint(1, 9) / 10.0 for _ in range(3)], 'full-rank-6d'))
     work = []
     for sig, n in sigs:
         for _ in range(n):
